@@ -10,6 +10,7 @@ range check precedes every use of offset_to_next (R3.4); the filter predicate
 builders keep order, stop strictly below capacity (R3.7); skip/load decision
 table (R3.8); both reader back-ends advance by exactly the argument (R3.9).
 Not decided: OS I/O behaviour, channel hand-over, large payload behaviour."""
+import re
 from ..mir import Body, callee_of, origin_calls, origin_leaves, show_origin, op_place
 from ..thir import Evaluator, Slice, Bits, Agg, Obj, Sym, Cond, ckey, vkey, Unsupported, oracle_cond
 from ..facts import where
@@ -500,30 +501,34 @@ def _batches(ctx, rep):
             rep.missing("R3.7", builder)
             continue
         b = cg.body(builder)
-        loads = [(bb, t) for bb, t, cal, c in b.calls() if cal and cal.endswith("ScanCDP>::load_cdp")]
-        pushes = [(bb, t) for bb, t, cal, c in b.calls() if cal and cal.endswith("CdpArray::<T, CAP>::push")]
-        rep.check(len(loads) == 1 and len(pushes) == 1 and b.on_cycle(loads[0][0]) and b.on_cycle(pushes[0][0]), "R3.7", "R3.7|builder|shape",
-                  "one load_cdp and one push per loop iteration", builder)
-        if loads and pushes:
+        # the builder with the container's push methods inlined: the events are the three element pushes, however the
+        # tuple reaches them (destructured and `push`ed, or handed over whole to `push_tuple`)
+        from ..mir import Body as _Body, inline_fn as _inline
+        bi = _Body(_inline(f, builder, lambda c: "cdp_wrapper::" in c and c.split("::")[-1].startswith("push")))
+        loads = [(bb, t) for bb, t, cal, c in bi.calls() if cal and cal.endswith("ScanCDP>::load_cdp")]
+        FIELDS = ["rdhs", "payloads", "rdh_mem_pos"]
+        pushes = []
+        for bb, t, cal, c in bi.calls():
+            if cal and cal.endswith("::push") and len(t["args"]) == 2:
+                rcv = show_origin(bi.origin(t["args"][0]))
+                fld = rcv.rsplit(".", 1)[-1] if "." in rcv else None
+                if fld in FIELDS:
+                    pushes.append((bb, t, fld))
+        rep.check(len(loads) == 1 and sorted(x[2] for x in pushes) == sorted(FIELDS) and bi.on_cycle(loads[0][0]) and all(bi.on_cycle(x[0]) for x in pushes),
+                  "R3.7", "R3.7|builder|shape", "one load_cdp and one push onto each of the three parallel vectors per loop iteration", builder,
+                  "load_cdp calls %d, element pushes %s" % (len(loads), [x[2] for x in pushes]))
+        if len(loads) == 1 and len(pushes) == 3:
             lb = loads[0][0]
-            pt = pushes[0][1]
-            good = True
-            for i, a in enumerate(pt["args"][1:4]):
-                o = b.origin(a)
-                cs = origin_calls(o)
-                good &= any(c[3] == lb for c in cs) or any(l[0] == "local" for l in origin_leaves(o))
-                # component index preserved
-                k = show_origin(o)
-            # components are pushed in order 0,1,2 of the tuple
-            comps = []
-            for a in pt["args"][1:4]:
-                pl = op_place(a)
-                src = _copy_source(b, pl)
-                comps.append(src)
-            rep.check(good and comps == [".0", ".1", ".2"], "R3.7", "R3.7|builder|components", "the three tuple components are pushed unchanged and in order %s" % comps, builder,
-                      "pushed components come from tuple fields %s (expected .0,.1,.2 of the load_cdp result)" % comps)
+            comps = {}
+            for bb, t, fld in pushes:
+                so = show_origin(bi.origin(t["args"][1]))
+                m_ = re.search(r"load_cdp\(arg1\)@Ok\.0\.(\d)$", so)
+                comps[fld] = ".%s" % m_.group(1) if m_ else so[-60:]
+            rep.check([comps.get(x) for x in FIELDS] == [".0", ".1", ".2"], "R3.7", "R3.7|builder|components",
+                      "the three tuple components of the loaded CDP are pushed unchanged onto rdhs / payloads / rdh_mem_pos", builder,
+                      "pushed components: %s (expected .0,.1,.2 of the load_cdp result)" % comps)
             # push on every loop path after a successful load
-            rep.check(_cycle_passes(b, lb, pushes[0][0]), "R3.7", "R3.7|builder|push_every_ok", "every iteration that loaded a CDP pushes it", builder)
+            rep.check(all(_cycle_passes(bi, lb, x[0]) for x in pushes), "R3.7", "R3.7|builder|push_every_ok", "every iteration that loaded a CDP pushes it", builder)
         # the loop bound and the reader's stop condition use the same CAP, strict '<'
         s = cg.body(spawner)
         cmp_ = []
